@@ -329,9 +329,14 @@ def run2(ctx, n, have_model, gen="core2"):
             bits = int(dm) if dm.isdigit() else 0
             indom = bits & need == need
             if gen == "corez":
+                indomz = r.startswith("D")
                 inz = not r.startswith("X")
-                r = r.lstrip("X")
-                ctx.hist("corez_shape_check", ("corez:" if inz else "outside corez:") + {"0": "not-corez", "1": "shape-ok", "2": "mismatch", "3": "LEXERR"}.get(r, r))
+                r = r.lstrip("DX")
+                ctx.hist("corez_shape_check", ("corez+lex_safez:" if indomz else "corez only:" if inz else "outside corez:")
+                         + {"0": "not-corez", "1": "shape-ok", "2": "mismatch", "3": "LEXERR"}.get(r, r))
+                if indomz and r != "1":
+                    ctx.correspondence_failure({"doc": d, "text": t, "shape_check": r},
+                                               "document in the domain of text_roundtrip_corez but the extracted shape check is not 1: theorem and extraction disagree")
                 continue
             if gen == "core4":
                 # D = in the domain of C02_text_roundtrip_core4 (core4_doc && lex_safe4_doc): the shape check must be 1
